@@ -50,7 +50,7 @@ RULE = ('seeded, not exhaustive: 3119 fixed cases + 3016*sc generated ones, sc =
         'arrangement as formula over variables on the parser (whatever its own via), every top-level array argument in a variable '
         'holding a Python TUPLE of the same items (arrays nested inside it stay lists) - what a host variable holding a tuple or a host '
         'function doing `return a, b, c` hands over: same outcome as the first result, compared like the second arrangement (exactly for '
-        'the exact names on integer / dyadic data, PRODUCT on integers; else 1e-12 relative; two non-values: the same code). (large, 250*sc) LARGE(arr,k), arr such a list nested to depth 3, one k drawn from 1..n, second '
+        'the exact names on integer / dyadic data, PRODUCT on integers; else 1e-12 relative; two non-values: the same code). A stat case of 1..8 arguments that are all scalars (no array, no blank) is evaluated once more (r4) as NAME(A1,B1,...) over cells answered by the listener of the host - same outcome, compared the same way; for this, 4 fixed scalar argument lists holding zeros ([0,3,4.5], [2,0,0.0,7], [0], [5,0]) per name of STAT_FNS but GEOMEAN / HARMEAN (100 cases). (large, 250*sc) LARGE(arr,k), arr such a list nested to depth 3, one k drawn from 1..n, second '
         'arrangement shuffled and nested afresh: exactly the k-th largest item, both times. (slope, 200*sc) SLOPE on '
         '2n scalar arguments (y first), n in {2,3,4,5,8,12,20} (2 twice as likely): integer / dyadic lists (70%) or '
         '1-place decimals in -20..20, all-equal x broken up 9 times in 10, 30% rescaled by powers of two (x by 2^-17 '
@@ -146,6 +146,8 @@ ASSUMPTIONS = ['textbook value of MODE: any most frequent item (the model pins t
                'demanded on integer / dyadic data only, on decimal or rescaled data nothing is demanded then',
                'COUNT and COUNTA count every item (the statement is about numeric items; the lists hold numbers only, empty '
                'arrays add nothing)',
+               'a scalar that arrives as the value of a cell (answered by the callCellValue listener of the host) is the item it is as a variable: a '
+               'zero or FALSE is an item, only an unanswered cell is a blank (r4)',
                'a Python tuple handed over by the host (as the value of a variable) is an array like the list of the same items: '
                'the aggregate over it is the aggregate over the list (stat cases; only top-level arrays are turned into tuples, '
                'and only under the 27 names of STAT_FNS)']
@@ -283,12 +285,27 @@ def has_expr(v):
 _p = [None]
 
 
+_cellvals = {}
+CELL_NAMES = ['A1', 'B1', 'C1', 'D1', 'E1', 'F1', 'G1', 'H1']
+
+
 def parser():
     if _p[0] is None:
         common.load_repo()
         import hotxlfp
         _p[0] = hotxlfp.Parser()
+        # route cell: scalar arguments as values of the cells A1.. answered by the host's listener (0 and FALSE are values, not blanks)
+        _p[0].on('callCellValue', lambda cell, setter: setter(_cellvals.get(cell.label)))
     return _p[0]
+
+
+def call_cells(c):
+    """the call of a case whose arguments are all scalars, written over cells -> ('val', v) | ('err', code)"""
+    _cellvals.clear()
+    for lab, a in zip(CELL_NAMES, c['args']):
+        _cellvals[lab] = dec(a)
+    r = parser().parse('%s(%s)' % (c['fn'], ','.join(CELL_NAMES[:len(c['args'])])))
+    return ('err', r['error']) if r['error'] is not None else ('val', r['result'])
 
 
 def call(c, args=None, tup=False):
@@ -333,6 +350,8 @@ def impl(c):
         out['r2'] = call(c, c['args2'])
     if c['kind'] == 'stat' and c.get('via') != 'lit' and any(isinstance(a, list) for a in c['args']) and not has_expr(c['args']):
         out['r3'] = call(c, tup=True)
+    if c['kind'] == 'stat' and 1 <= len(c['args']) <= len(CELL_NAMES) and not any(isinstance(a, (list, dict)) or a is None for a in c['args']):
+        out['r4'] = call_cells(c)
     return out
 
 
@@ -694,6 +713,8 @@ def oracle(c, ans):
                 pass
             if 'r3' in ans and not same_result(res, ans['r3'], dyadic(c) and fn in EXACT and (fn != 'PRODUCT' or all_ints(c)), scale):
                 return '%s gives %r but the same call with its arrays handed over as tuples gives %r' % (show(c), res, ans['r3'])
+            if 'r4' in ans and not same_result(res, ans['r4'], dyadic(c) and fn in EXACT and (fn != 'PRODUCT' or all_ints(c)), scale):
+                return '%s gives %r but the same call with its arguments as values of cells (answered by the listener) gives %r' % (show(c), res, ans['r4'])
             if 'args2' in c:
                 r2 = ans['r2']
                 pair_exact = dyadic(c) and fn in EXACT and (fn != 'PRODUCT' or all_ints(c))
@@ -1144,6 +1165,12 @@ def cases(rng, ctx):
     for fn in STAT_FNS:
         for _ in range(8 * sc):
             out.append(gen_stat(rng, fn))
+        # scalar arguments only, zeros among them (each also evaluated over cells answered by the host's listener: a zero is an
+        # item, a blank is none)
+        for args in ([0, 3, 4.5], [2, 0, 0.0, 7], [0], [5, 0]):
+            if fn in ('GEOMEAN', 'HARMEAN'):
+                continue
+            out.append({'kind': 'stat', 'fn': fn, 'via': 'var', 'args': list(args)})
     for _ in range(500 * sc):
         out.append(gen_stat(rng))
     for _ in range(250 * sc):
